@@ -105,7 +105,7 @@ def do_add(w, ants, step, i, opts, req, on_reject=None, only_bad=False):
         for r in range(nr[ai]):
             a.receive(Signal(np.arange(6) * 1e-9 + i * 1e-6 + r * 1e-7, np.ones(6) * (100 * ((i + r + ai) % 2) + i + 0.01 * r + 0.001 * ai + 1), Signal.Type.voltage))
     rp = [[FakePath(1000 * i + 10 * ai + r + 1) for r in range(nr[ai])] for ai in range(nant)]
-    pol = [[(1 + i, ai, r) for r in range(nr[ai])] for ai in range(nant)]
+    pol = [[(1 + i, ai + 0.25, r + 0.5) for r in range(nr[ai])] for ai in range(nant)]       # three different components per ray
     if step["query_first"]:
         for a in ants:
             a.all_waveforms            # class: antennas queried before add (noise master exists already)
@@ -153,7 +153,8 @@ def do_add(w, ants, step, i, opts, req, on_reject=None, only_bad=False):
     if trig_only["particles"] and not T:
         rec.update(energies=[], kinds=[], ids=[], vertices=[], weights=[])
     rec["triggered"] = T if opts["triggers"] and (not trig_only["triggers"] or T) else None
-    rec["rays"] = [[rp[ai][r].v if r < nr[ai] else 0.0 for ai in range(nant)] for r in range(maxw)] if opts["rays"] and (not trig_only["rays"] or T) else None
+    rec["rays"] = [[[float(rp[ai][r].v), 2.0 * rp[ai][r].v + 0.5] + [float(x) for x in pol[ai][r]] if r < nr[ai] else [0.0] * 5 for ai in range(nant)]
+                   for r in range(maxw)] if opts["rays"] and (not trig_only["rays"] or T) else None       # [tof, path length, polarization x, y, z] per ray and antenna
     rec["waves"] = [[(np.array(ants[ai].all_waveforms[r].times), np.array(ants[ai].all_waveforms[r].values)) if r < nr[ai] else None for ai in range(nant)]
                     for r in range(maxw)] if opts["waveforms"] and (not trig_only["waveforms"] or T) else None
     rec["noise"] = [(np.array(a._noise_master.freqs), np.array(a._noise_master.amps), np.array(a._noise_master.phases)) if a._noise_master is not None else None
@@ -174,6 +175,15 @@ def do_add(w, ants, step, i, opts, req, on_reject=None, only_bad=False):
     return rec, rejected
 
 
+def _rays_of(e):
+    """[tof, path length, polarization x, y, z] per ray and antenna, through the one-attribute accessors."""
+    tof = e.get_rays_info("tof")
+    if len(tof) == 0:
+        return []
+    tof, pl, po = np.asarray(tof, float), np.asarray(e.get_rays_info("path_length"), float), np.asarray(e.get_rays_info("polarization"), float)
+    return [[[float(tof[r][a]), float(pl[r][a])] + [float(x) for x in po[r][a]] for a in range(tof.shape[1])] for r in range(tof.shape[0])]
+
+
 def getrec(e):
     out = {}
     try:
@@ -189,7 +199,7 @@ def getrec(e):
             raise
         out.update(energies="NOTSAVED", kinds="NOTSAVED", ids="NOTSAVED", vertices="NOTSAVED", weights="NOTSAVED")
     for name, fn in (("triggered", lambda: None if e.triggered is None else bool(e.triggered)),
-                     ("rays", lambda: (lambda r: np.array(r).tolist() if len(r) > 0 else [])(e.get_rays_info("tof"))),
+                     ("rays", lambda: _rays_of(e)),
                      ("waves", lambda: e.get_waveforms()), ("noise", lambda: e.noise_bases),
                      ("comps", lambda: sorted(e.get_triggered_components()))):
         try:
